@@ -368,6 +368,16 @@ fn syntax(args: &[String]) {
                     v.push("]".to_string());
                     variants.push(("stray-bracket", v));
                 }
+                // an inner attribute anywhere but at the start of the module
+                if let Some(i) = toks.iter().rposition(|t| t == "impl") {
+                    if i > 0 {
+                        let mut v = toks.clone();
+                        for (k, t) in ["#", "!", "[", "late", "]"].iter().enumerate() {
+                            v.insert(i + k, t.to_string());
+                        }
+                        variants.push(("inner-attribute-in-item-position", v));
+                    }
+                }
                 for (name, v) in variants {
                     let text = gram::join(&v, &mut rng);
                     let nlines = text.lines().count().max(1);
